@@ -195,7 +195,7 @@ def main(tier):
         s["job"] = len(jobs) - 1
 
     model_out = None
-    if jobs and not any("Clone/Pairs" in f or "Gen/" in f for f in ck.failed_files):
+    if jobs and not any(f in ("Clone/Pairs.v", "Clone/PairsRun.v") or "Gen/" in f for f in ck.failed_files):
         try:
             model_out = [lib.parse_coq_values(o) for o in lib.coq_eval_many(jobs, workers=8)]
         except Exception as e:
